@@ -169,7 +169,13 @@ func c19Step(t *rapid.T, tdir string, cmd string, run c19Runner) {
 			}
 		}
 	case "clean":
-		for p, v := range before {
+		var paths []string
+		for p := range before {
+			paths = append(paths, p)
+		}
+		sort.Strings(paths) // a deterministic first failure
+		for _, p := range paths {
+			v := before[p]
 			_, still := after[p]
 			switch {
 			case v == "dir":
